@@ -32,3 +32,15 @@ def queries():
 if _t0 is not None:
     META["assumptions"] = list(META.get("assumptions", [])) + list(getattr(_t0, "ASSUMPTIONS", []))
     META["mutants_tried"] = list(META.get("mutants_tried", [])) + list(getattr(_t0, "MUTANTS", []))
+
+
+# ---- cross-included by the main session (C04.b): "each certificate is signed by the next one's key" rests on the
+# signature verifiers and DER unit decoders named in the property's anchors (ecdsa_i15_vrfy_raw.c, ecdsa_atr.c,
+# rsa_pkcs1_sig_unpad.c); they are decided by the C11 / C10 query families below.  A seeded change there (C04c: the raw
+# verifier insisting on full-length halves while asn1_to_raw strips leading zeros) must fail C04 as well.
+_c04_queries = queries
+def queries():
+    import C10, C11
+    extra = [q for q in C11.queries() if q.tier == "quick" and (q.name.startswith("vrfy-i15-") or q.name.startswith("vrfy-i31-") or q.name.startswith("atr-L") or q.name.startswith("rtt-L"))]
+    extra += [q for q in C10.queries() if q.tier == "quick" and q.name.startswith("p1unpad-")]
+    return _c04_queries() + extra
